@@ -8,7 +8,7 @@ from pathlib import Path
 import gen
 import impl
 import spec
-from common import Ctx, dec, enc, same
+from common import Ctx, dec, enc, same, reset_globals
 
 ID = "C18"
 RULE = ("generated directory trees (names with spaces, dots, non-ASCII); all ordered pairs of locations for relative_path, "
@@ -135,6 +135,39 @@ def process(ctx: Ctx, cases: list[dict]) -> None:
             exp = {"ak": 2, "shared": "from a", "nest": {"y": 2, "x": 1}, "bk": 1}
             if not same(r, exp):
                 ctx.violation("reading the dumped file does not merge the included file's content", c, {"read": enc(r), "text": text}, enc(exp))
+    for c in cases:
+        if c["kind"] != "place2":
+            continue
+        # a second include added later through a new object bound to the same (already dumped) file
+        ctx.case(c, True, ("place2:" + c["rel"],))
+        try:
+            with impl.scratch() as td:
+                ad = Path(td, *c["a_dir"]); ad.mkdir(parents=True, exist_ok=True)
+                incs = []
+                for j, bd_ in enumerate(c["b_dirs"]):
+                    bd = Path(td, *bd_); bd.mkdir(parents=True, exist_ok=True)
+                    b = SDict(bd / c["b_names"][j]); b[f"from{j}"] = 10 + j; b["shared"] = f"from b{j}"
+                    b.dump(); incs.append(b)
+                for j, b in enumerate(incs):
+                    if c["reset"]:
+                        reset_globals(c["start"])
+                    a = SDict(ad / c["a_name"])
+                    a[f"own{j}"] = j
+                    a.include(b)
+                    a.dump()
+                reset_globals()
+                r = spec.strip_placeholders(impl.plain(DictReader.read(ad / c["a_name"])))
+                text = (ad / c["a_name"]).read_text()
+        except Exception as e:  # noqa: BLE001
+            ctx.violation("include()/dump()/read() raises", c, repr(e), "merged dict"); continue
+        exp = {}
+        for j in range(len(c["b_dirs"])):
+            exp[f"own{j}"] = j
+        for j in range(len(c["b_dirs"])):
+            exp[f"from{j}"] = 10 + j
+        exp["shared"] = "from b0"
+        if spec.unordered(r) != spec.unordered(exp):
+            ctx.violation("reading the dumped file does not merge the content of every included file", c, {"read": enc(r), "text": text}, enc(exp))
     if more and not ctx.oracle_only:
         for i, r in zip(more_idx, ctx.driver(more)):
             c = cases[i]
@@ -212,6 +245,13 @@ def run(ctx: Ctx) -> None:
             # the included file may carry the same name as the including one when it lives in another folder
             bn = an if (ad != bd and rng.random() < 0.35) else rng.choice(["b", "b.dict", "b c", "é.d"])
             cases.append({"kind": "place", "rel": rel, "a_dir": ad, "b_dir": bd, "a_name": an, "b_name": bn})
+    for _ in range(ctx.n(4, 40)):
+        for rel, ad, bd in placements:
+            others = [p for p in placements if p[2] != bd]
+            bds = [bd, rng.choice(others)[2]] + ([rng.choice(others)[2]] if rng.random() < 0.3 else [])
+            cases.append({"kind": "place2", "rel": rel, "a_dir": ad, "b_dirs": bds, "a_name": rng.choice(["a", "mainDict", "my a"]),
+                          "b_names": [f"b{j}" + rng.choice(["", ".dict"]) for j in range(len(bds))], "reset": rng.random() < 0.7,
+                          "start": rng.choice([-1, -1, 0, 5])})
     process(ctx, cases)
 
 
